@@ -194,7 +194,8 @@ def ceilMultipleU (w c : Nat) (s m : BitVec w) : BitVec w :=
   let rem : BitVec w := tr w (zx c s % zx c m)
   if (0 : BitVec w).ult rem then tr w (zx c s + (zx c m - zx c rem)) else s
 /-- compute_ceilMultiple<false,true>::call, scalar_integer.inl:
-    `if(Source > 0){ Tmp = Source - 1; return Tmp + (Multiple - (Tmp % Multiple)); } else return Source + (-Source % Multiple);` -/
+    `if(Source > 0){ Tmp = Source - 1; return Tmp + (Multiple - (Tmp % Multiple)); } else return Source - (Source % Multiple);`
+    (after the repair of the negation overflow at the most negative value) -/
 def ceilMultipleS (w c : Nat) (s m : BitVec w) : BitVec w :=
   let sp : BitVec c := sx c s
   let mp : BitVec c := sx c m
@@ -203,7 +204,7 @@ def ceilMultipleS (w c : Nat) (s m : BitVec w) : BitVec w :=
     let t : BitVec c := sx c tmp
     tr w (t + (mp - t.srem mp))
   else
-    tr w (sp + (-sp).srem mp)
+    tr w (sp - sp.srem mp)
 /-- compute_floorMultiple<false,false>::call: `Source >= genType(0)` is a tautology for an unsigned T (also after
     promotion), so only `return Source - Source % Multiple;` is reachable -/
 def floorMultipleU (w c : Nat) (s m : BitVec w) : BitVec w :=
